@@ -3,6 +3,7 @@ known-findings matcher, evidence writer."""
 import os, sys, json, time, collections, multiprocessing as mp, traceback, subprocess, signal, hashlib
 
 VERIF = os.path.dirname(os.path.dirname(os.path.abspath(__file__)))
+OUT = os.environ.get('VERIF_OUT', VERIF)    # scratch runs against a mutated worktree write elsewhere
 REPO = os.environ.get('DSW_REPO', '/repo')
 NPROC = int(os.environ.get('VERIF_NPROC', '16'))
 SCHEMA = '/root/.vp/EVIDENCE.schema.json'
@@ -174,7 +175,7 @@ class Ctx:
                         self.pid, kf['what'], kf['signature'], res.nviol[sig]))
             else:
                 unknown.append(sig)
-        rdir = os.path.join(VERIF, 'replays', self.pid)
+        rdir = os.path.join(OUT, 'replays', self.pid)
         nrep = 0
         if unknown:
             os.makedirs(rdir, exist_ok=True)
@@ -219,8 +220,8 @@ class Ctx:
         ev = {'property_id': self.pid, 'tier': self.tier, 'seed': int(self.seed), 'level': self.level,
               'coverage': cov, 'assumptions': self.assumptions, 'wall_s': round(wall, 2),
               'violations': int(sum(res.nviol[s] for s in unknown))}
-        os.makedirs(os.path.join(VERIF, 'evidence'), exist_ok=True)
-        path = os.path.join(VERIF, 'evidence', self.pid + '.json')
+        os.makedirs(os.path.join(OUT, 'evidence'), exist_ok=True)
+        path = os.path.join(OUT, 'evidence', self.pid + '.json')
         with open(path, 'w') as fh:
             json.dump(ev, fh, indent=1, sort_keys=False)
         _validate(path)
